@@ -21,7 +21,7 @@ ASSUMPTIONS = [
 ]
 SHARD_TIMEOUT = {"quick": 400, "thorough": 3000}
 
-STR_ELEMS = ["'a'", "'b'", "'ab'", "'B'", "''", "'z'", "'é'", "'10'", "'9'", "'a b'"]
+STR_ELEMS = ["'a'", "'b'", "'ab'", "'B'", "''", "'z'", "'é'", "'10'", "'9'", "'a b'", "'caf\u00e9'", "'cafe\u0301'", "'\u212b'", "'\u00c5'", "'A\u030a'"]
 MIX_ELEMS = ["1", "2", "10", "-3", "1.5", "0.5", "7", "100", "42"]
 SET_ELEMS = ["<<1, 2>>", "<<3>>", "<<'ab', 'cd'>>", "<<'cd', 'ef'>>", "<<2, 5>>", "<<9>>", "<<>>", "<<8>>", "<<1>>", "<<'a'>>", "<<'b', 'a'>>", "<< <<1>> >>"]   # subset order is partial
 LIST_ELEMS = ["[1]", "[1, 2]", "[2]", "['a']", "[]", "[[1]]", "[1.5]", "['a', 'b']"]
